@@ -7,6 +7,7 @@ package main
 import (
 	"fmt"
 	"go/ast"
+	"go/constant"
 	"go/token"
 	"go/types"
 	"path/filepath"
@@ -60,7 +61,7 @@ func (c *c14) relPos(pos token.Pos) string {
 func runC14(r *Report) {
 	r.Explanation = "Every potentially panicking operation in every function of every instantiated package is an obligation. (p1) index/slice expressions on slices, arrays and strings: discharged when the Go compiler's prove pass eliminated the bounds check (site absent from `-gcflags=-d=ssa/check_bce/debug=1` output for the emitted package — the compiler only removes a check it proved cannot fail), otherwise it must match a guard idiom checked here (prefix strip under HasPrefix, cut at Index/len, reverse index loop, splitPath contract). (p2) single-result type assertions, panic calls, integer division by a non-constant, slice-to-array conversions: expected 0. (p3) map stores: the map is made non-nil on every path before the store. (p5) exactly one response: ServeHTTP and authMiddlewareOr are fully recognised; every response writer calls WriteHeader exactly once on every path (min = max = 1 over the CFG). (p6) new<Op>Params returns either (zero, non-nil error) or (params, nil). (p7) dynamic calls: the callee value is a parameter, an API/Client field (user configuration), a guarded field, or a package hook initialised non-nil — never the result of a map/slice lookup."
 	r.Rule("C14/bounds", "every index/slice expression is proven by the compiler's prove pass or matches a checked guard idiom")
-	r.Rule("C14/no-panic-construct", "no single-result type assertion, no panic(), no integer division by a variable, no slice->array conversion in generated code")
+	r.Rule("C14/no-panic-construct", "no single-result type assertion, no panic(), no integer division by a variable, no slice->array conversion, no make / Grow / Repeat / MustCompile with a computed (possibly negative) argument in generated code")
 	r.Rule("C14/map-store", "every map store is preceded on all paths by a make of that map")
 	r.Rule("C14/one-response", "ServeHTTP / authMiddlewareOr recognised; every response Write calls WriteHeader exactly once on every path")
 	r.Rule("C14/parse-result", "new<Op>Params returns (zero, err != nil) or (params, nil) on every return")
@@ -418,8 +419,21 @@ func (c *c14) constructs() {
 					} else {
 						c.r.OK("C14/map-store", fkey+":map store", c.s3.pos(x.Pos()), "map is made on every path to the store")
 					}
+				case *ssa.MakeSlice:
+					for _, v := range []ssa.Value{x.Len, x.Cap} {
+						if v != nil && !nonNegativeByConstruction(v, 0) {
+							bad++
+							c.r.Violation("C14/no-panic-construct", fkey+":make with computed length", c.s3.pos(x.Pos()), "make([]T, n) with n neither a constant nor built from len()/cap(): a negative or huge n panics")
+						}
+					}
 				case *ssa.Call:
 					cc := x.Call
+					if sc := cc.StaticCallee(); sc != nil && !cc.IsInvoke() {
+						if idx, ok := c14ArgPanics[sc.String()]; ok && idx < len(cc.Args) && !nonNegativeByConstruction(cc.Args[idx], 0) {
+							bad++
+							c.r.Violation("C14/no-panic-construct", fkey+":"+sc.String()+" with computed argument", c.s3.pos(x.Pos()), sc.String()+" panics on a negative/invalid argument and the argument is neither a constant nor built from len()/cap() (e.g. Request.ContentLength is -1 for chunked bodies)")
+						}
+					}
 					if cc.IsInvoke() || cc.StaticCallee() != nil {
 						continue
 					}
@@ -438,6 +452,44 @@ func (c *c14) constructs() {
 		c.r.OK("C14/no-panic-construct", c.p.Name, "", "no single-result assertion / panic / variable integer division / slice-to-array conversion")
 	}
 	c.r.OK("C14/dynamic-call", c.p.Name, "", fmt.Sprintf("%d dynamic calls classified", nDyn))
+}
+
+// standard-library functions that panic on an argument value (argument index in
+// the SSA call, receiver included)
+var c14ArgPanics = map[string]int{
+	"(*bytes.Buffer).Grow": 1, "(*strings.Builder).Grow": 1, "strings.Repeat": 1, "bytes.Repeat": 1,
+	"slices.Grow": 1, "regexp.MustCompile": 0, "regexp.MustCompilePOSIX": 0, "math/rand.Intn": 0, "math/rand.Int63n": 0,
+	"math/rand.Int31n": 0, "time.NewTicker": 0, "time.Tick": 0, "(*bufio.Reader).Discard": 1, "bufio.NewReaderSize": 1,
+}
+
+// nonNegativeByConstruction: a non-negative constant, len()/cap(), or sums/products of those.
+func nonNegativeByConstruction(v ssa.Value, depth int) bool {
+	if depth > 6 {
+		return false
+	}
+	switch x := v.(type) {
+	case *ssa.Const:
+		if x.Value == nil {
+			return false
+		}
+		if x.Value.Kind() == constant.String {
+			return true // constant pattern (MustCompile): checked by the compiler's vet/tests, not value dependent
+		}
+		return constant.Sign(x.Value) >= 0
+	case *ssa.Call:
+		if b, ok := x.Call.Value.(*ssa.Builtin); ok && (b.Name() == "len" || b.Name() == "cap") {
+			return true
+		}
+	case *ssa.BinOp:
+		if x.Op == token.ADD || x.Op == token.MUL {
+			return nonNegativeByConstruction(x.X, depth+1) && nonNegativeByConstruction(x.Y, depth+1)
+		}
+	case *ssa.Convert:
+		return nonNegativeByConstruction(x.X, depth+1)
+	case *ssa.ChangeType:
+		return nonNegativeByConstruction(x.X, depth+1)
+	}
+	return false
 }
 
 func isIntType(t types.Type) bool {
